@@ -26,8 +26,9 @@ class Function:
 
 
 # ---------------------------------------------------------------------------------------------
-def dump_mir(repo, scratch):
-    """Regenerate the MIR text from the repository's current working tree."""
+def dump_mir(repo, scratch, overflow_checks=False):
+    """Regenerate the MIR text from the repository's current working tree. With `overflow_checks` the arithmetic of the crate carries rustc's own
+    `assert(!overflow)` terminators (the dev profile, in which cargo builds proc-macro crates unless told otherwise)."""
     env = dict(os.environ)
     env["CARGO_TARGET_DIR"] = os.path.join(scratch, "target")
     env["CARGO_NET_OFFLINE"] = "true"
@@ -36,7 +37,7 @@ def dump_mir(repo, scratch):
     for d in glob.glob(os.path.join(scratch, "target", "debug", ".fingerprint", "derive-ex-*")):
         shutil.rmtree(d, ignore_errors=True)
     out = subprocess.run(
-        ["cargo", "+nightly", "rustc", "--offline", "-p", "derive-ex", "--lib", "--", "-Zunpretty=mir", "-C", "debug-assertions=off"],
+        ["cargo", "+nightly", "rustc", "--offline", "-p", "derive-ex", "--lib", "--", "-Zunpretty=mir", "-C", "debug-assertions=off"] + (["-C", "overflow-checks=on"] if overflow_checks else []),
         cwd=repo, env=env, stdout=subprocess.PIPE, stderr=subprocess.PIPE, text=True)
     if out.returncode != 0 or "fn " not in out.stdout:
         raise RuntimeError("MIR dump failed:\n" + out.stderr[-3000:])
